@@ -12,11 +12,21 @@ the same sequence of row / open-group / close-group events on the sheet and on i
 form, and fails with the same error when it fails — loops unrolled in order with the loop and
 index variables bound, rows and blocks with a false include_if dropped without their contents
 being instantiated, nesting to any depth.
+(3) The block clause ("an edge that names a block leaves from every still-unconnected ordinary
+exit of the block but never from a hard exit") on the compiler model (`Rpft/Compile.lean`, tied to
+the real parser in C01), for ALL machine states: node level `block_edge_exits`; group level
+`connect_loose_group`, `block_edge_group` (frame + exactly the nodes of `Compile.Reach` are
+connected), `block_edge_frame`, `block_edge_connects_reach`; `block_edge_inside` (only nodes of the
+block's subtree when no begin row leaks) and the kernel-checked witness
+`block_edge_reaches_outside` for the open finding F-C03-a (`Reach` of a block leaves the block
+through the parents of the begin row's `no_op` group).
 -/
 import Rpft.Props.C02
 import Rpft.Lemmas.Sugar
 import Rpft.Compile
 import Rpft.Lemmas.CompileExits
+import Rpft.Lemmas.CompileConnect
+import Rpft.Props.C01
 set_option linter.unusedSimpArgs false
 set_option linter.unusedVariables false
 namespace Rpft.Props.C03
@@ -115,6 +125,218 @@ theorem block_edge_exits (n : Compile.NodeM) (d : Compile.Dest) :
 theorem block_edge_consumes_loose (n : Compile.NodeM) (d : Compile.Dest) (hd : d ≠ .none) :
     (n.connectLoose d).hasLoose = false := Compile.connectLoose_no_loose n d hd
 
+
+/-! ### the block clause on the compiler model (group level) -/
+
+/-- **Group recursion of `connect_loose_exits`** (`Compile.connectLoose`), for ALL machine states,
+groups, destinations and fuels: when it succeeds (running out of fuel is a failure of the model,
+so a successful run had enough), nothing but the contents of the node arena changes, and an arena
+node is replaced by `n.connectLoose d` exactly when the recursion reaches it (`Compile.Reach`: the
+last node of a row group; the router node of a `no_op` group or else what its parents reach; what
+the children of a block reach) — every other node is untouched. -/
+theorem connect_loose_group (fuel g : Nat) (d : Compile.Dest) (s s' : Compile.St)
+    (hr : (Compile.connectLoose fuel g d).run s = .ok ((), s')) :
+    s' = { s with nodes := s'.nodes } ∧ s'.nodes.size = s.nodes.size ∧
+    ∀ (i : Nat) (n : Compile.NodeM), s.nodes[i]? = some n →
+      (Compile.Reach s.groups g i → s'.nodes[i]? = some (n.connectLoose d)) ∧
+      (¬ Compile.Reach s.groups g i → s'.nodes[i]? = some n) := by
+  have := Compile.wp_of_run (Compile.connectLoose_conn d fuel g s) hr
+  exact ⟨this.1.1, this.1.2, this.2⟩
+
+/-- **An edge that names a block, group level** (`add_exit` of a block group), for ALL machine
+states: it is accepted only with a blank condition and when some reached node has an exit that
+leads nowhere; then groups, stack, row ids, node names and the identifier counter are unchanged,
+the arena keeps its size, and a node is replaced by `n.connectLoose d` exactly when it is reached
+from the block — nothing outside `Reach` changes.  (A child without loose exit is skipped by the
+real code; connecting it would not change it.) -/
+theorem block_edge_group (fuel g : Nat) (d : Compile.Dest) (c : Compile.Cond) (s s' : Compile.St)
+    (children : List Nat) (hg : s.groups[g]? = some (.block children))
+    (hr : (Compile.addExit fuel g d c).run s = .ok ((), s')) :
+    c.blank = true ∧
+    (s'.groups = s.groups ∧ s'.stack = s.stack ∧ s'.rowIds = s.rowIds ∧ s'.names = s.names ∧
+      s'.next = s.next ∧ s'.nodes.size = s.nodes.size) ∧
+    (∀ (i : Nat) (n : Compile.NodeM), s.nodes[i]? = some n →
+      (Compile.Reach s.groups g i → s'.nodes[i]? = some (n.connectLoose d)) ∧
+      (¬ Compile.Reach s.groups g i → s'.nodes[i]? = some n)) ∧
+    (∃ (i : Nat) (n : Compile.NodeM), Compile.Reach s.groups g i ∧ s.nodes[i]? = some n ∧ n.hasLoose = true) := by
+  obtain ⟨hc, hconn, hl⟩ := Compile.wp_of_run (Compile.addExit_block_conn fuel g d c s children hg) hr
+  refine ⟨hc, ?_, hconn.2, hl⟩
+  have e := hconn.1.1
+  refine ⟨?_, ?_, ?_, ?_, ?_, hconn.1.2⟩ <;> rw [e]
+
+/-- **Frame**: after an edge naming a block every arena node has the same identifier, actions and
+router (operand, cases, categories, timeout) and the same exits in the same order as before; an
+exit that led somewhere — a hard exit, an exit into a node — keeps its destination, everywhere in
+the arena; only exits that led nowhere may now lead to `d`. -/
+theorem block_edge_frame (fuel g : Nat) (d : Compile.Dest) (c : Compile.Cond) (s s' : Compile.St)
+    (children : List Nat) (hg : s.groups[g]? = some (.block children))
+    (hr : (Compile.addExit fuel g d c).run s = .ok ((), s')) :
+    ∀ (i : Nat) (n : Compile.NodeM), s.nodes[i]? = some n → ∃ n', s'.nodes[i]? = some n' ∧
+      (Compile.renderNode n').uuid = (Compile.renderNode n).uuid ∧
+      (Compile.renderNode n').actions = (Compile.renderNode n).actions ∧
+      (Compile.renderNode n').router = (Compile.renderNode n).router ∧
+      (Compile.renderNode n').exits.map (·.uuid) = (Compile.renderNode n).exits.map (·.uuid) ∧
+      (n'.exitDests = n.exitDests ∨ n'.exitDests = n.exitDests.map (Compile.fillLoose d)) ∧
+      (∀ (k : Nat) (x : Compile.Dest), n.exitDests[k]? = some x → x ≠ .none → n'.exitDests[k]? = some x) := by
+  obtain ⟨_, _, hn, _⟩ := block_edge_group fuel g d c s s' children hg hr
+  intro i n hi
+  by_cases hreach : Compile.Reach s.groups g i
+  · obtain ⟨h1, h2, h3, h4⟩ := Compile.connectLoose_render n d
+    refine ⟨_, (hn i n hi).1 hreach, h1, h2, h3, h4, .inr (Compile.connectLoose_exitDests n d), ?_⟩
+    intro k x hk hx
+    rw [Compile.connectLoose_exitDests, List.getElem?_map, hk]
+    cases x <;> simp_all [Compile.fillLoose]
+  · exact ⟨n, (hn i n hi).2 hreach, rfl, rfl, rfl, rfl, .inl rfl, fun k x hk _ => hk⟩
+
+/-- **Every still-unconnected exit of every reached node now leads to the edge's destination**
+(when the edge has one), hard exits and connected exits as before; afterwards the node has no
+loose exit left. -/
+theorem block_edge_connects_reach (fuel g : Nat) (d : Compile.Dest) (c : Compile.Cond) (s s' : Compile.St)
+    (children : List Nat) (hg : s.groups[g]? = some (.block children))
+    (hr : (Compile.addExit fuel g d c).run s = .ok ((), s')) (hd : d ≠ .none) :
+    ∀ (i : Nat) (n : Compile.NodeM), Compile.Reach s.groups g i → s.nodes[i]? = some n →
+      ∃ n', s'.nodes[i]? = some n' ∧ n'.exitDests = n.exitDests.map (Compile.fillLoose d) ∧
+        n'.hasLoose = false := by
+  obtain ⟨_, _, hn, _⟩ := block_edge_group fuel g d c s s' children hg hr
+  intro i n hreach hi
+  exact ⟨_, (hn i n hi).1 hreach, Compile.connectLoose_exitDests n d, Compile.connectLoose_no_loose n d hd⟩
+
+/-- **Only nodes of the block are touched — when no begin row leaks**: if every `no_op` group in
+the block's subtree that has no router node has all its parents inside the subtree
+(`Compile.NoParentLeak`), every node reached from the block — hence every node an edge naming the
+block changes — is held by a group of the block's subtree. -/
+theorem block_edge_inside (gs : Array Compile.Grp) (b : Nat) (h : Compile.NoParentLeak gs b)
+    (i : Nat) (hr : Compile.Reach gs b i) : Compile.InSubtree gs b i :=
+  Compile.reach_in_subtree h hr (.refl b)
+
+/-- a sufficient, decidable condition: no router-less `no_op` group of the arena has a parent -/
+def noNoopParents (gs : Array Compile.Grp) : Bool :=
+  gs.toList.all fun g => match g with
+    | .noop (_ :: _) none => false
+    | _ => true
+
+theorem noParentLeak_of_noNoopParents (gs : Array Compile.Grp) (b : Nat) (h : noNoopParents gs = true) :
+    Compile.NoParentLeak gs b := by
+  intro x ps p _ hx hp
+  have hm : Compile.Grp.noop ps none ∈ gs.toList := by
+    rw [Array.mem_toList_iff]
+    exact Array.mem_of_getElem? hx
+  unfold noNoopParents at h
+  rw [List.all_eq_true] at h
+  have := h _ hm
+  cases ps with
+  | nil => cases hp
+  | cons q qs => simp at this
+
+/-! #### finding F-C03-a: the begin row, kept as a `no_op` group INSIDE the block, has the row that
+leads into the block as its parent — so `Reach` of the block leaves the block -/
+
+/-- `w` waits for a response; the block `B` is entered on the answer "yes" and contains the row `x` -/
+def leakPrefix : List Compile.Event :=
+  [ .row (C01.mkRow "w" "wait_for_response" [C01.edgeFrom "start"]),
+    .openGroup [C01.edgeFrom "w" "yes"] false,
+    .row (C01.mkRow "x" "send_message" [C01.edgeFrom ""] (some "in block")),
+    .closeGroup "B".toList ]
+
+/-- the row after the block, with an edge that names the block -/
+def leakRow : Compile.Event :=
+  .row (C01.mkRow "R" "send_message" [C01.edgeFrom "B"] (some "after the block"))
+
+/-- the machine state after the events (when they succeed) -/
+def runEvents (noArgs testTypes : List Str) (evs : List Compile.Event) : Option Compile.St :=
+  match (Compile.steps evs).run (Compile.initSt noArgs testTypes) with
+  | .ok (_, s) => some s
+  | .error _ => none
+
+theorem runEvents_some {noArgs testTypes : List Str} {evs : List Compile.Event} {s : Compile.St}
+    (h : runEvents noArgs testTypes evs = some s) :
+    (Compile.steps evs).run (Compile.initSt noArgs testTypes) = .ok ((), s) := by
+  unfold runEvents at h
+  split at h
+  · rename_i u s0 hs; injection h with h; subst h; exact hs
+  · cases h
+
+/-- **F-C03-a, kernel-checked on the model** (the real code behaves the same, tied in C01): in the
+state reached before the row after the block, group 2 is the block (children: the begin row's
+`no_op` group 3 and the row group 4 of `x`), group 3 has the row group 1 of `w` — OUTSIDE the block —
+as its parent, so node 0 (the router of `w`) is reached from the block although no group of the
+block's subtree holds it; and the compiled flow shows it: without the row `R` the default exit of
+`w` leads nowhere, with it that exit leads to `R`'s node. -/
+theorem block_edge_reaches_outside :
+    ∃ s, runEvents [] C01.exTests leakPrefix = some s ∧
+      s.groups[2]? = some (.block [3, 4]) ∧ Compile.Reach s.groups 2 0 ∧
+      ¬ Compile.InSubtree s.groups 2 0 ∧ ¬ Compile.NoParentLeak s.groups 2 ∧
+      (Compile.compile [] C01.exTests leakPrefix).toOption.map
+          (fun o => (Compile.renderOut o).nodes.map (fun n => n.exits.map (·.dest))) =
+        some [[some "~5".toList, none], [none]] ∧
+      (Compile.compile [] C01.exTests (leakPrefix ++ [leakRow])).toOption.map
+          (fun o => (Compile.renderOut o).nodes.map (fun n => n.exits.map (·.dest))) =
+        some [[some "~5".toList, some "~12".toList], [some "~12".toList], [none]] := by
+  have h : (match runEvents [] C01.exTests leakPrefix with
+      | some s => decide (s.groups[2]? = some (.block [3, 4]) ∧
+          s.groups[3]? = some (.noop [(1, (C01.edgeFrom "w" "yes").cond)] none) ∧
+          s.groups[1]? = some (.row [0] "wait_for_response".toList) ∧
+          s.groups[4]? = some (.row [1] "send_message".toList))
+      | none => false) = true := by decide +kernel
+  split at h
+  · rename_i s hs
+    simp only [decide_eq_true_eq] at h
+    obtain ⟨h2, h3, h1, h4⟩ := h
+    have hreach : Compile.Reach s.groups 2 0 :=
+      .child h2 (by simp) (.parent h3 (List.mem_singleton.mpr rfl) (.row h1 rfl))
+    have hb := Compile.final_binv (runEvents_some hs)
+    have hnot : ¬ Compile.InSubtree s.groups 2 0 := by
+      rintro ⟨y, grp, hd, hy, hm⟩
+      have : y = 1 := hb.n.huniq y 1 (Compile.held grp) [0] 0 (by simp [Compile.heldF, hy])
+        (by simp [Compile.heldF, h1, Compile.held]) hm (by simp)
+      subst this
+      have := hd.le hb.g
+      omega
+    refine ⟨s, hs, h2, hreach, hnot, fun hnl => hnot (block_edge_inside _ _ hnl 0 hreach), ?_, ?_⟩
+    · decide +kernel
+    · decide +kernel
+  · cases h
+
+/-- non-vacuity of `block_edge_group` / `block_edge_frame` / `block_edge_connects_reach`: in the
+state of `block_edge_reaches_outside` the edge naming the block (group 2) is accepted with the
+machine's own fuel -/
+example : ∃ s s', runEvents [] C01.exTests leakPrefix = some s ∧
+    s.groups[2]? = some (.block [3, 4]) ∧
+    (Compile.addExit (2 * s.groups.size + 8) 2 (.node "R".toList) C01.blankCond).run s = .ok ((), s') := by
+  have h : (match runEvents [] C01.exTests leakPrefix with
+      | some s => decide (s.groups[2]? = some (.block [3, 4])) &&
+          (match (Compile.addExit (2 * s.groups.size + 8) 2 (.node "R".toList) C01.blankCond).run s with
+           | .ok _ => true
+           | .error _ => false)
+      | none => false) = true := by decide +kernel
+  split at h
+  · rename_i s hs
+    simp only [Bool.and_eq_true, decide_eq_true_eq] at h
+    obtain ⟨h2, h3⟩ := h
+    split at h3
+    · rename_i u hu
+      exact ⟨s, u.2, hs, h2, hu⟩
+    · cases h3
+  · cases h
+
+/-- a block that is not entered through an edge: nothing leaks, `block_edge_inside` applies -/
+def tightPrefix : List Compile.Event :=
+  [ .openGroup [] true,
+    .row (C01.mkRow "x" "send_message" [C01.edgeFrom ""] (some "in block")),
+    .closeGroup "B".toList ]
+
+example : ∃ s, runEvents [] C01.exTests tightPrefix = some s ∧ s.groups[1]? = some (.block [2]) ∧
+    Compile.NoParentLeak s.groups 1 ∧ Compile.Reach s.groups 1 0 := by
+  have h : (match runEvents [] C01.exTests tightPrefix with
+      | some s => decide (s.groups[1]? = some (.block [2]) ∧
+          s.groups[2]? = some (.row [0] "send_message".toList) ∧ noNoopParents s.groups = true)
+      | none => false) = true := by decide +kernel
+  split at h
+  · rename_i s hs
+    simp only [decide_eq_true_eq] at h
+    obtain ⟨h1, h2, h3⟩ := h
+    exact ⟨s, hs, h1, noParentLeak_of_noNoopParents _ _ h3, .child h1 (by simp) (.row h2 rfl)⟩
+  · cases h
 
 def toCompileEvent : Ev Compile.Row BeginHdr → Compile.Event
   | .row r => .row r
